@@ -363,6 +363,9 @@ func run() {
 	// zex tables and images (data only)
 	write("ZexData", genZexData(*repo))
 	allMods = append(allMods, "ZexData")
+	// tinycpm BIOS pages (C18)
+	write("TinyCPM", genTinyCPM(*repo))
+	allMods = append(allMods, "TinyCPM")
 	// structural facts (C10)
 	write("Facts", t.genFacts())
 	allMods = append(allMods, "Facts")
